@@ -10,7 +10,7 @@ import glob, json, os, re, shutil, sys
 
 SRC = "/tmp/seed-out"
 DST = "/verif/seeded"
-ROUND = {"1": "r1", "2": "r2", "3": "r2b", "4": "r3", "5": "r4", "6": "r5", "7": "r6"}
+ROUND = {"1": "r1", "2": "r2", "3": "r2b", "4": "r3", "5": "r4", "6": "r5", "7": "r6", "8": "r7"}
 
 
 def main():
